@@ -477,7 +477,7 @@ func (vc *VC) zeroObject(st *State, t types.Type, ref string) {
 		}
 		// ghost fields start at their zero value too (for external types this is an assumption about the zero value)
 		for _, g := range vc.prog.ghostFieldsOf(structKey(t)) {
-			env := &Env{vc: vc, pkg: vc.prog.typesPkgByName(g.Pkg)}
+			env := &Env{vc: vc, pkg: vc.prog.typesPkgByName(g.Pkg), pkgName: g.Pkg}
 			gt := env.resolveType(g.Type)
 			vc.writeKey(st, fieldKey(t, g.Name), gt, ref, vc.zero(gt))
 		}
